@@ -1,6 +1,16 @@
 HOOK_COMMITS = []
-IMPLEMENTED = {"C01", "C02", "C03", "C04", "C05", "C06", "C07", "C08", "C09", "C10", "C11", "C12", "C13", "C14", "C18"}
+IMPLEMENTED = {"C01", "C02", "C03", "C04", "C05", "C06", "C07", "C08", "C09", "C10", "C11", "C12", "C13", "C14", "C15", "C18", "C20"}
 TABLE = {
+ "C15": {
+  "technique": "stateful (model-based) property testing: generated operation histories interpreted against the real objects and an explicit model, invariant checked after every step",
+  "text": "Histories of up to 40 operations (set succeeding/failing, follow, stop_following, update with succeeding/failing forwarding, followed-getter output changes, clock advance/error, set_delta, set_time) run against a recording settable, a ConstantGetter, a TimeGetterFromGetter and a GetterFromHistory built with each of its four constructors over an echo history; after every operation the last request, the exact forwarded sequence, return values, the constant getter, the adapter value (history(now+offset) restamped now) and the time getter are compared with the model.",
+  "note": "i64 clock values and offsets are kept within bounds where no sum overflows, as the quantifier states.",
+ },
+ "C20": {
+  "technique": "model-based / differential property testing over generated round histories with recording test doubles; PID wrapper vs a separately driven CommandPID",
+  "text": "Each wrapper is driven for up to 32 rounds of terminal data (own slot and/or connected external terminal, state and/or command or nothing) with inner objects that are present/absent/erroring or accept/reject; recording doubles show exactly what the inner settable received and when it was updated, the encoder's terminal slot is compared bit for bit with the getter's datum, errors must propagate, and the PID wrapper's motor values are compared exactly with a stand-alone CommandPID fed the same (time, state, command) sequence.",
+  "note": "What the terminal 'sees' is its combined read just before the update; the motor double forwards followed values in update() as the Settable docs require.",
+ },
  "C08": {
   "technique": "model-based property testing over generated multi-round device scenarios: f64 least-squares reference with running error bound, exact one-sided formulas, independent constraint re-check; exhaustive data-presence patterns",
   "text": "Inverters, gear trains (by ratio and by tooth list), axles of 0..6 terminals and differentials in all four trust modes are driven for up to 8 rounds in which each terminal gets data through its own slot, a connected external terminal, both or neither; after each update the own slots are compared with the least-squares projection of the states read just before it (bound x4), with exact formulas for implied values and recomputed branches, with the newest contributing timestamp, and the constraint is re-checked on the written slots. Every own/partner data-presence pattern is enumerated for 13 device shapes.",
